@@ -84,6 +84,8 @@ enum Ret {
     Deleted(usize),
     /// the caller dropped the operation's future before it returned
     Cancelled,
+    /// the operation panicked (tolerated only for a TTL that no timestamp can represent)
+    Panicked,
 }
 
 #[derive(Clone, Debug)]
@@ -197,6 +199,11 @@ async fn do_op(store: &SessionStore, op: &Op) -> Ret {
 /// only shows if the wall clock later jumps backwards, so those transitions branch.
 type MState = BTreeMap<u8, (u32, i64)>;
 
+/// `now + ttl`, saturating far beyond anything the simulated clock reaches.
+fn deadline_of(now: i64, ttl_ms: u64) -> i64 {
+    now.saturating_add(((ttl_ms as i128) * 1_000_000).min((i64::MAX / 4) as i128) as i64)
+}
+
 fn live(s: &MState, id: u8, now: i64) -> bool {
     s.get(&id).map(|(_, d)| *d > now).unwrap_or(false)
 }
@@ -216,6 +223,13 @@ const RELAX_NAMES: [(u8, &str); 2] = [
 fn step(s: &MState, op: &Op, ret: &Ret, now: i64, relax: u8) -> Vec<MState> {
     let same = || vec![s.clone()];
     let none = Vec::new;
+    if let Ret::Panicked = ret {
+        // `now + ttl` is not a representable instant: refusing the call (by panicking, as the
+        // unchanged stores do) is tolerated, as long as nothing was written and the store goes on
+        // serving everybody else; a panic on any other input is never acceptable
+        let huge = matches!(op, Op::Create { ttl_ms, .. } | Op::Update { ttl_ms, .. } | Op::UpdateTtl { ttl_ms, .. } if *ttl_ms == u64::MAX);
+        return if huge { same() } else { none() };
+    }
     if let Ret::Cancelled = ret {
         // the caller went away in the middle: the operation took effect as a whole (with whatever
         // answer nobody saw) or not at all
@@ -244,7 +258,7 @@ fn step(s: &MState, op: &Op, ret: &Ret, now: i64, relax: u8) -> Vec<MState> {
                     return none();
                 }
                 let mut n = s.clone();
-                n.insert(*id, (*val, now + *ttl_ms as i64 * 1_000_000));
+                n.insert(*id, (*val, deadline_of(now, *ttl_ms)));
                 let mut v = vec![n];
                 if relax & R_CREATE_AT_DEADLINE_NOOP != 0 && s.get(id).map(|(_, d)| *d == now).unwrap_or(false) {
                     v.push(s.clone());
@@ -258,7 +272,7 @@ fn step(s: &MState, op: &Op, ret: &Ret, now: i64, relax: u8) -> Vec<MState> {
                     return none();
                 }
                 let mut n = s.clone();
-                n.insert(*id, (*val, now + *ttl_ms as i64 * 1_000_000));
+                n.insert(*id, (*val, deadline_of(now, *ttl_ms)));
                 vec![n]
             } else if *ret == Ret::UnknownId {
                 same()
@@ -273,7 +287,7 @@ fn step(s: &MState, op: &Op, ret: &Ret, now: i64, relax: u8) -> Vec<MState> {
                 }
                 let mut n = s.clone();
                 let v = s[id].0;
-                n.insert(*id, (v, now + *ttl_ms as i64 * 1_000_000));
+                n.insert(*id, (v, deadline_of(now, *ttl_ms)));
                 vec![n]
             } else if *ret == Ret::UnknownId {
                 same()
@@ -342,7 +356,9 @@ fn step(s: &MState, op: &Op, ret: &Ret, now: i64, relax: u8) -> Vec<MState> {
             };
             match (lo, ln) {
                 (true, true) => {
-                    if *ret == Ret::DuplicateId { same() } else { none() }
+                    // renaming a live record onto ITSELF: the backends disagree (memory: duplicate id,
+                    // SQLite: Ok) and the property does not say; either way nothing changes
+                    if *ret == Ret::DuplicateId || (old == new && *ret == Ret::Ok) { same() } else { none() }
                 }
                 (false, true) => {
                     if matches!(ret, Ret::DuplicateId | Ret::UnknownId) { with_old_reclaimed(same()) } else { none() }
@@ -471,6 +487,7 @@ fn ret_str(r: &Ret) -> String {
     match r {
         Ret::Other(e) => format!("Other({})", e.chars().take(60).collect::<String>()),
         Ret::Cancelled => "Cancelled".into(),
+        Ret::Panicked => "Panicked".into(),
         Ret::Loaded(Some((m, ttl))) => format!("Some(v{}, ttl={}ms)", m.map(|x| x.to_string()).unwrap_or("CORRUPT".into()), ttl / 1_000_000),
         Ret::Loaded(None) => "None".into(),
         o => format!("{o:?}"),
@@ -500,14 +517,16 @@ async fn task_body(store: Arc<SessionStore>, task: usize, ops: Vec<Op>, sh: Rc<R
             (s.cancel_target == Some((task, op_index)), s.cancel.clone())
         };
         op_index += 1;
+        use futures_util::FutureExt as _;
+        let guarded = std::panic::AssertUnwindSafe(do_op(store.as_ref(), &op)).catch_unwind().map(|r| r.unwrap_or(Ret::Panicked));
         let out = if is_target {
             tokio::select! {
                 biased;
                 _ = cancel.notified() => Ret::Cancelled,
-                r = do_op(store.as_ref(), &op) => r,
+                r = guarded => r,
             }
         } else {
-            do_op(store.as_ref(), &op).await
+            guarded.await
         };
         {
             let mut s = sh.borrow_mut();
@@ -804,6 +823,8 @@ fn viol(inv: &str, sig: String, detail: String) -> Violation {
 }
 
 pub fn execute(script: &Script, tape: &mut Tape, keep_log: bool) -> RunOut {
+    crate::quiet_panics();
+    let _ = crate::take_panics();
     seams::set_entropy(Some(0xC13));
     let t0 = seams::EPOCH_S * 1_000_000_000;
     seams::set_clock_ns(t0, 0);
@@ -1059,6 +1080,7 @@ fn ret_kind(r: &Ret) -> &'static str {
         Ret::DuplicateId => "DuplicateId",
         Ret::Other(_) => "Other",
         Ret::Cancelled => "Cancelled",
+        Ret::Panicked => "Panicked",
         Ret::Loaded(None) => "None",
         Ret::Loaded(Some(_)) => "Some",
         Ret::Deleted(_) => "n",
@@ -1134,23 +1156,24 @@ impl Sim for StoreSim {
                 let mut ops = Vec::new();
                 for _ in 0..k {
                     let id = rng.below(n_ids as u64) as u8;
-                    let ttl_ms = *rng.pick(&ttls);
+                    // one TTL in forty is more than any timestamp can hold ("never expires")
+                    let ttl_ms = if rng.chance(1, 40) { u64::MAX } else { *rng.pick(&ttls) };
                     let op = match rng.weighted(&[6, 4, 2, 6, 3, 3, 1]) {
                         0 => {
                             val += 1;
-                            last_ttl = ttl_ms.min(5 * unit);
+                            last_ttl = if ttl_ms == u64::MAX { unit } else { ttl_ms.min(5 * unit) };
                             Op::Create { id, ttl_ms, val: if rng.chance(1, 8) { 0 } else { val } }
                         }
                         1 => {
                             val += 1;
-                            last_ttl = ttl_ms.min(5 * unit);
+                            last_ttl = if ttl_ms == u64::MAX { unit } else { ttl_ms.min(5 * unit) };
                             Op::Update { id, ttl_ms, val: if rng.chance(1, 6) { 0 } else { val } }
                         }
                         2 => Op::UpdateTtl { id, ttl_ms },
                         3 => Op::Load { id },
                         4 => Op::Delete { id },
                         5 => {
-                            let new = if n_ids > 1 { (id + 1 + rng.below(n_ids as u64 - 1) as u8) % n_ids } else { (id + 1) % 10 };
+                            let new = if rng.chance(1, 15) { id } else if n_ids > 1 { (id + 1 + rng.below(n_ids as u64 - 1) as u8) % n_ids } else { (id + 1) % 10 };
                             Op::ChangeId { old: id, new }
                         }
                         _ => {
